@@ -71,7 +71,17 @@ def gen(seed, tier="quick"):
             if r.random() < 0.2:
                 val = {"t": "pool", "v": val}  # the very same array object is checked again later, in other contexts
             ops.append({"op": "arr", "ann": a, "val": val})
-            if r.random() < 0.12:
+            if val.get("t") == "duck" and r.random() < 0.2:
+                # re-entrancy: the array's `.shape` property (its k-th read during this check) itself checks another array against
+                # an annotation over the same axis names, in the same thread and context (lazy arrays, logging proxies, ...)
+                a2 = g.arr_ann(atype="np", dtype="Shaped")
+                p2 = dict(p)
+                for nm2 in ("a", "b", "c", "n", "m"):
+                    if r.random() < 0.5:
+                        p2[nm2] = r.choice(g.sizes)
+                ops[-1]["reentry"] = {"site": "duck.shape", "k": r.randrange(1, 5),
+                                      "op": {"op": "arr", "ann": a2, "val": g.arr_val(a2, p2, p_bad=0.0, vt="np")}}
+            elif r.random() < 0.12:
                 ops.append(dict(ops[-1]))  # re-issue
             if r.random() < 0.1:
                 ops.append({"op": "obs"})
@@ -102,6 +112,7 @@ class Observer:
         self.pending = None
         self.hist = []
         self.shadow = None
+        self.re_out = None
 
     def _args(self, run):
         for f in reversed(run.frames):
@@ -117,8 +128,9 @@ class Observer:
             certain = op["op"] == "ctx" or all(a is None for _, a in self.scn["fns"][op["fn"]]["params"])
             self.hist.append({"ctx": model.Ctx(args={}), "certain": certain})
             return
-        if op["op"] != "arr":
-            return
+        if op["op"] != "arr" or path.endswith(".re"):
+            return  # (a re-entrant nested check is judged together with the check it interrupts, see post)
+        self.re_out = None
         self.shadow = None
         if run.frames and self.hist and self.hist[-1]["certain"]:
             sctx = self.hist[-1]["ctx"].copy()
@@ -148,6 +160,9 @@ class Observer:
             if self.hist:
                 self.hist.pop()
             return
+        if op["op"] == "arr" and path.endswith(".re"):
+            self.re_out = (op, out)
+            return
         if op["op"] != "arr" or self.pending is None:
             return
         snap0, outs, post, in_ctx = self.pending
@@ -155,6 +170,20 @@ class Observer:
         spec = self.scn["anns"][op["ann"]]
         got = "accept" if out is True else "reject" if out is False else (
             "AnnotationError" if out.get("exc") == "AnnotationError" else "exc")
+        if op.get("reentry") and self.re_out is not None:
+            # a nested check ran in the middle of this one (what each of them sees of the other's half-made bindings is unspecified)
+            self.stats.inc("reentrant_checks")
+            nop, nout = self.re_out
+            if self.hist:
+                self.hist[-1]["certain"] = False
+            reentrant_in_ctx = in_ctx
+            # (An oracle "two accepted checks of one context are jointly satisfiable" was tried here and withdrawn: the unchanged
+            # code itself looks a variadic name up, THEN reads the shape -- where the nested check runs and binds the name -- and
+            # then writes its own binding over it; 1 scenario in ~7000.  Nothing in the properties makes a check atomic with
+            # respect to checks that user code makes from inside it, so inside a context the pair is not judged.)
+            if reentrant_in_ctx:
+                return
+            # outside every context checks are stateless: the interrupted check is judged like any other (below)
         if in_ctx and self.hist:
             top = self.hist[-1]
             if self.shadow is None:
